@@ -535,6 +535,42 @@ func runC01(c *Ctx) {
 			}
 		}
 	}
+	// other spellings of the same bytes: Go's base64 decoding ignores CR / LF and the unused low bits of a final
+	// character, so these edits keep the DECODED segment and change only the text (which is what is signed)
+	for _, name := range names {
+		tok := all[name]
+		ch := strings.Split(tok, ".")
+		for seg := 0; seg < 3; seg++ {
+			var variants []string
+			if L := len(ch[seg]); L > 0 && L%4 != 0 {
+				for _, a := range "ABCDEFGHIJKLMNOPQRSTUVWXYZabcdefghijklmnopqrstuvwxyz0123456789-_" {
+					if byte(a) != ch[seg][L-1] {
+						variants = append(variants, ch[seg][:L-1]+string(a))
+					}
+				}
+			}
+			for _, nl := range []string{"\n", "\r", "\r\n"} {
+				p := c.Rng.Intn(len(ch[seg]) + 1)
+				variants = append(variants, ch[seg][:p]+nl+ch[seg][p:], ch[seg]+nl, nl+ch[seg])
+			}
+			for _, v := range variants {
+				q := append([]string(nil), ch...)
+				q[seg] = v
+				m := strings.Join(q, ".")
+				ft := forged{Token: m, Note: fmt.Sprintf("%s: other base64 spelling of segment %d", name, seg)}
+				_, o := processToken(c, w, ft)
+				mut++
+				c.count("mutation_base64_spelling")
+				if o.Accepted {
+					c.sum.ImplChecks++
+					if !sameContent(tok, m) {
+						c.violation("C01: an altered token is accepted with different content", map[string]interface{}{"original": tok, "token": m, "note": ft.Note})
+					}
+				}
+				distinct[fmt.Sprint(name, seg, "spelling", o.Accepted)] = true
+			}
+		}
+	}
 	// splices between tokens of different issuers / kinds
 	for _, a := range names {
 		for _, b := range names {
